@@ -42,6 +42,7 @@
 (declare-fun split_count (Str Int) Int)
 (declare-fun split_piece (Str Int Int) Str)
 (assert (forall ((s Str) (c Int)) (! (>= (split_count s c) 1) :pattern ((split_count s c)))))
+(assert (forall ((s Str) (c Int)) (! (=> (= (slen s) 0) (= (split_count s c) 1)) :pattern ((split_count s c)))))
 ; wit(s): always true; written inside an existential over strings so that the witness of one instance is
 ; a ground term the solver can try for another (a trigger that does not depend on any heap version)
 (declare-fun wit (Str) Bool)
